@@ -114,7 +114,13 @@ class Builder:
                     tgt = [j for j, kk in enumerate(node["kids"][:i]) if isinstance(kk, dict)]
                     if tgt:
                         kids.append(W.R(self.nodes[path + (tgt[k[1] % len(tgt)],)]))
-            d[b"Kids"] = kids
+            if node.get("kids_ind"):
+                # the /Kids array itself as an indirect object
+                kn = self.alloc()
+                self.objs[kn] = kids
+                d[b"Kids"] = W.R(kn)
+            else:
+                d[b"Kids"] = kids
             d[b"Count"] = 0
         else:
             x, y = node["pt"]
@@ -372,7 +378,7 @@ def tree(draw, depth, budget, cyc):
         a = draw(attrs())
         return {"kind": "page", "attrs": a, "nulls": nulls(draw, a), "pt": (Fr(1), Fr(1)), "text": "P"}
     a = draw(attrs())
-    node = {"kind": "pages", "attrs": a, "nulls": nulls(draw, a), "kids": []}
+    node = {"kind": "pages", "attrs": a, "nulls": nulls(draw, a), "kids": [], "kids_ind": draw(st.integers(0, 3)) == 0}
     for _ in range(draw(st.integers(0, 5))):
         if budget[0] <= 0:
             break
